@@ -50,3 +50,5 @@ CLAIM = dict(
     technique=('translator from the real AST to Lean + theorems over exact arithmetic (grind, induction) + differential '
                'correspondence (Float bit patterns, exact rational counts) + tolerance oracle on the interpreter'),
 )
+
+CLAIM["text"] += ' Temperatures handed to °C / °F are also written in mK, kK and µK, and the inverse pairs of math::trigonometry_extra (cot/acot, coth/acoth, secant/arcsecant, csc/acsc, sech/asech, csch/acsch) are tested with a relative tolerance of 1e-9 on the well-conditioned part of their domains.'
